@@ -837,6 +837,7 @@ func (e *specEnv) evalCall(n *ECall) sv {
 			key += h + "=" + t + ";"
 		}
 		if _, ok := c.readSnaps[key]; !ok && !c.inAxiom {
+			snap["ALLOC"] = c.alloc()
 			c.readSnaps[key] = snap
 			c.readSnapOrder = append(c.readSnapOrder, key)
 		}
